@@ -74,6 +74,7 @@ type Exec struct {
 	argNames      map[string]bool
 	afterNames    map[string]bool
 	jsonFreshUsed bool
+	needsLex      int
 	argCells      map[string]*Cell
 	mkstrSeen     map[string]bool
 	zarrSeen      map[string]bool
